@@ -675,7 +675,7 @@ def explain(w):
     if type(code) is not int:
         return "reject", [("type", "type-code", "type code is not an integer")], lax
     if code not in CODES:
-        return "reject", [("type", "type-code", "unknown type code %r" % (code,))], lax
+        return "reject", [("type", "type-code", "unknown type code %s" % (_short(code),))], lax
     spec = MESSAGES[CODES[code]]
     n = len(w)
     if n < spec.min_len or n > spec.max_len:
@@ -706,7 +706,7 @@ def explain(w):
             continue                     # needs the match option, below
         r = p.chk(v)
         if r == LAX:
-            lax.append((p.name, "latitude for %r" % (v,)))
+            lax.append((p.name, "latitude for %s" % (_short(v),)))
         elif r != OK:
             bad.append((p.name, r[1], "invalid %s %r" % (p.name, _short(v))))
 
@@ -793,8 +793,20 @@ def validate(w):
     return explain(w)[0]
 
 
+def safe_repr(v):
+    """repr() that also works for integers beyond CPython's int -> str digit limit"""
+    import sys
+    old = sys.get_int_max_str_digits()
+    sys.set_int_max_str_digits(0)
+    try:
+        s = repr(v)
+    finally:
+        sys.set_int_max_str_digits(old)
+    return s if len(s) <= 400 else s[:200] + "...(%d characters)" % len(s)
+
+
 def _short(v):
-    s = repr(v)
+    s = safe_repr(v)
     return s if len(s) <= 60 else s[:57] + "..."
 
 
@@ -1214,6 +1226,8 @@ def selfcheck():
 # ---------------------------------------------------------------------------
 
 def to_jsonable(x):
+    if type(x) is int and abs(x) >= 2 ** 1024:
+        return {"t": "i", "v": hex(x)}
     if x is None or type(x) in (bool, int, str):
         return x
     if type(x) is float:
@@ -1224,7 +1238,7 @@ def to_jsonable(x):
         return {"t": "l", "v": [to_jsonable(e) for e in x]}
     if isinstance(x, dict):
         return {"t": "d", "v": [[to_jsonable(k), to_jsonable(v)] for k, v in x.items()]}
-    return {"t": "r", "v": repr(x)}
+    return {"t": "r", "v": safe_repr(x)}
 
 
 def from_jsonable(x):
@@ -1235,6 +1249,8 @@ def from_jsonable(x):
         return float(v)
     if t == "b":
         return bytes.fromhex(v)
+    if t == "i":
+        return int(v, 16)
     if t == "l":
         return [from_jsonable(e) for e in v]
     if t == "d":
